@@ -392,6 +392,12 @@ def run(tr):
             if x.graceful and x.first_stop_op is None and not x.deq_stop and not x.stream_ended and x.strong > 0:
                 S.bad("C05", f"a{a} terminated although {x.strong} strong handle(s) exist and nobody stopped it", idx)
                 S.bad("C16", f"a{a} terminated although {x.strong} strong handle(s) exist and nobody stopped it", idx)
+            # C05: the service registry is a strong holder too
+            if x.graceful and x.first_stop_op is None and not x.deq_stop and not x.stream_ended:
+                tys = [ty for ty, b in S.reg.items() if b == a]
+                if tys and not any(r["ty"] in tys for r in S.reg_ops.values()) and not S.rlock:
+                    S.bad("C05", f"a{a} terminated although the service registry holds it (type {tys[0]}) and nobody stopped it", idx)
+                    S.bad("C08", f"a{a} terminated although it is registered for type {tys[0]} and nobody stopped it", idx)
             # C04 drain: everything whose send completed before any stop request was issued is handled
             if x.graceful and not x.stream_ended:
                 for op in S.ops.values():
